@@ -105,8 +105,13 @@ func (c *Compiled) Run(ops map[string]*OpSpec, p *Plan, phase string) (o Outcome
 }
 
 func (c *Compiled) RunEnv(env *Env, kind string) (o Outcome) {
+	return c.RunCtx(&eval.Ctx{VariableFetcher: &SimFetcher{E: env}}, env, kind)
+}
+
+// RunCtx performs one call with a caller-owned Ctx (a request's Ctx that
+// lives across several calls); its fetcher must already serve env.
+func (c *Compiled) RunCtx(ctx *eval.Ctx, env *Env, kind string) (o Outcome) {
 	o.Env = env
-	ctx := &eval.Ctx{VariableFetcher: &SimFetcher{E: env}}
 	defer func() {
 		if r := recover(); r != nil {
 			if _, ok := r.(AbortPanic); ok {
